@@ -16,7 +16,7 @@ VARIANTS = {
     # name -> (compiler, flags)
     'plain': ('gcc', ['-O1', '-DNDEBUG']),
     'dbg': ('gcc', ['-O1']),  # asserts on
-    'asan': ('gcc', ['-O1', '-DNDEBUG', '-fsanitize=address,undefined', '-fno-sanitize-recover=undefined',
+    'asan': ('gcc', ['-O1', '-DNDEBUG', '-fsanitize=address,undefined', '-fno-sanitize=alignment', '-fno-sanitize-recover=undefined',
                      '-fno-omit-frame-pointer']),
     'tsan': ('gcc', ['-O1', '-DNDEBUG', '-fsanitize=thread']),
     'O0': ('gcc', ['-O0', '-DNDEBUG']),
